@@ -179,5 +179,10 @@ func runProperty(p *Property, e *Engine, r *Report) {
 			r.undecided("PANIC", "checker", fmt.Sprintf("rule panicked: %v\n%s", x, strings.Join(lines, "\n")))
 		}
 	}()
+	before := len(e.RenameNotes)
 	p.Run(e, r)
+	for _, n := range e.RenameNotes[before:] {
+		r.note(n)
+		r.Degraded = append(r.Degraded, n)
+	}
 }
